@@ -34,14 +34,20 @@ from props.c04 import val, tag, exact, Unparsed, _var, _fold, _is_const, _flat_s
 ID = "C06"
 RULE = ("random causal filter shapes (numerator order 0..4, denominator order 0..4) in which every coefficient is "
         "independently an integer constant (0, +1, -1, other) or a Stream fed by a counting source (finite: shorter "
-        "than / equal to / longer than the input, empty; periodic with period 1..4), the gain a0 being 1, -1, another "
-        "constant or a Stream (variable-gain path); built from dicts, from `Stream*z**-k` sums and quotients, from the "
-        "LinearFilter base class, and (entry expr) from expression trees with + - * / over such filters; Fraction "
-        "inputs of length 0..12 (quick) / 0..40 (thorough), zero value 0 or not, memory None or a list; a malformed "
-        "stream (negative delays, zero inside a Stream gain); two-call histories (entry call2): the same shapes with "
-        "the input split at a random point into the inputs of two successive calls of one filter object, the "
-        "second with its own memory / zero value.  A case is non-trivial when the impl yields at least "
-        "one sample or raises; distinct = distinct JSON case")
+        "than / equal to / longer than the input, empty; periodic with period 1..4; RAISING: ValueError instead of the "
+        "end), the gain a0 being 1, -1, another constant or a Stream (variable-gain path); built from dicts, dense "
+        "lists, Poly objects, from `Stream*z**-k` / `z**-k*Stream` sums and quotients, from the LinearFilter base class, "
+        "with a numerator / denominator Poly divided by a Stream or by a Poly (one term, none, several), with the "
+        "gain assigned on the built object (`filt.denpoly[0] = 0 | number | Stream`), and (entry expr) from expression "
+        "trees with + - * / over such filters; the coefficient iterable handed in as Stream, plain generator, list, "
+        "tuple, StreamTeeHub or ControlStream; Fraction inputs of length 0..12 (quick) / 0..40 (thorough); zero value 0 "
+        "or not, spelled Fraction / int / float / bool or left to its default; memory None, list / tuple / deque / "
+        "generator / Stream / iterator shorter than, equal to or longer than needed, endless generator, callable; "
+        "call shape keyword / positional / mixed / memory=None explicit; a malformed stream (negative delays, zero "
+        "inside a Stream gain); two-call histories (entry call2): the same shapes with the input split at a random "
+        "point into the inputs of two successive calls of one filter object, the second with its own memory / zero "
+        "value, incl. histories whose first call is refused (non-causal).  A case is non-trivial when the impl "
+        "yields at least one sample or raises; distinct = distinct JSON case")
 TRUSTED = [
     "hand-written Lean model ALV/Model/C06.lean of LinearFilter.__call__ with Stream coefficients (modelled, not "
     "verified: a Stream as the list of items it delivers, one iterator per coefficient argument of the exec'd "
@@ -50,18 +56,29 @@ TRUSTED = [
     "model <-> /repo, measured by this tie",
     "translator T3 in harness/props/c06.py (ast-parser of the generated generator source, built on C04's) — "
     "self-tested on seeded source edits (extra check) and cross-checked by the I/O differential on every case",
-    "two-call histories: what a call leaves in the filter object (`advance`: every coefficient Stream where the "
-    "generated loop left its iterator; `denAfterCall`: the variable-gain path executes `den[0] = 0` on the alias "
-    "`den = self.denpoly`) is modelled by hand from LinearFilter.__call__ and measured by the entry call2 of this "
-    "tie (outputs / error of the second call, powers of denpoly after the first call, pull counts over both calls)",
+    "two-call histories: what a call leaves in the filter object (`objAfter`: polynomials untouched; constant gain: "
+    "every coefficient Stream where the generated loop left its iterator (`advance`); Stream gain: every Stream the "
+    "object holds one item further per output, the extra item a failed last evaluation may have taken being "
+    "unobservable) is modelled by hand from LinearFilter.__call__ and measured by the entry call2 of this tie "
+    "(outputs / error of the second call, powers of denpoly after the first call, pull counts over both calls)",
+    "a coefficient iterable that raises is not an `Except`-valued stream in Lean: the model sees the items delivered "
+    "before; that the exception reaches the caller after exactly the model's outputs, is not swallowed, and that the "
+    "finished generator then stops, is checked on the impl observation only (harness code)",
+    "float regime of a call (zero spelled int / bool / float or left to its default 0.0, integer Poly divisor): "
+    "outputs are compared with relative tolerance 1e-6 against the exact model (source IR, pull counts, lengths "
+    "and error kinds stay exact)",
     "itertools.tee / StreamTeeHub are modelled as independent iterators over the same items; that the underlying "
     "source is advanced once per sample is measured by the counting sources of this tie",
 ]
 ASSUMPTIONS = [
-    "a generator that meets StopIteration ENDS (the intent of the code, true before PEP 479); on CPython >= 3.7 "
-    "the same point raises RuntimeError: defect D13, recorded as known finding with a proposed fix",
+    "a generator whose coefficient iterator meets StopIteration ENDS (D13 repaired in /repo: try / except "
+    "StopIteration around the generated expression; the wrapper is peeled off textually before T3 parses)",
     "exact regime only: integer constants, Fraction stream items and samples (a non-integer Fraction constant is "
     "formatted as 'p/q' into the exec'd source and becomes a float: that is C04's float regime)",
+    "a non-Stream iterable as the GAIN (generator, list) is outside the property (the code raises "
+    "UnboundLocalError: it is neither the variable-gain path nor a constant); such cases are not generated",
+    "a filter object whose gain was deleted (`filt.denpoly[0] = 0`) is outside the property: only the model's "
+    "answer (ZeroDivisionError before anything is read, theorem no_gain_raises) is compared",
     "every Stream object is used once in the expression that builds the filter (the library's own rule: 'after "
     "declaring z as function of x and y, you should not use x and y anymore'); sharing goes through the "
     "library's thub / copy, which is what Poly.__mul__ and ZFilter.__add__ do internally",
@@ -78,15 +95,18 @@ ASSUMPTIONS = [
 MANIFEST = {
     "technique": "Lean 4 refinement proof (generated time-varying loop with one iterator per coefficient argument = "
                  "difference equation with the n-th coefficient values over unbounded histories = the indexed "
-                 "sentence of the property; variable-gain rewriting; element-wise algebra through the C07 Laurent "
-                 "homomorphism) + translator tie T3 + exact I/O and pull-count differential",
-    "note": "40 theorems, nothing PENDING: the end-to-end statement from raw constructor pairs "
-            "(filterCallTV_eq_specCallTV) is proved with C04's dictionary lemmas generalised to any coefficient type; "
-            "the all-zero filter with a Stream gain is stated exactly (C06.9) and is the only object excluded from "
-            "call_ends_with_shortest; two-call histories: second_call_continues (constant gain) and the defect D16 "
-            "second_call_after_stream_gain (the variable-gain path deletes denpoly[0] of the filter object, the second "
-            "call raises ZeroDivisionError) recorded as known with proposed_fixes/D16-stream-gain-second-call.diff; "
-            "D13 (coefficient stream ending before the input -> RuntimeError, PEP 479) is fixed in /repo",
+                 "sentence of the property; variable-gain rewriting; ZFilter / Poly arithmetic and whole expression "
+                 "trees read at time n = arithmetic of fractions of Laurent polynomials on the n-th items) + "
+                 "translator tie T3 + exact I/O and pull-count differential over call shapes, memory kinds, "
+                 "coefficient iterable kinds, raising sources and two-call histories",
+    "note": "56 theorems; PENDING: callTwice_eq_specCallTwice_PENDING (the two-call contract from raw pairs for "
+            "histories whose first output was ended by a coefficient stream; proved: both sides are the same tvspec "
+            "when it was ended by its input, constant gain and Stream gain).  The filter arithmetic clause is proved "
+            "for every ZFilter operator on filter objects (zfilter_*_elementwise, exact up to the normalisation "
+            "delay) and for every expression tree of any depth (expr_elementwise, expr_freeze, "
+            "expr_constant_streams, expr_reads_once).  Two-call model follows the repaired code (D16, D13 fixed in "
+            "/repo).  Known finding D22: Poly / one-term Poly with a Stream coefficient shares the Stream among all "
+            "quotient coefficients (proposed_fixes/D22-poly-div-one-term-stream.diff)",
 }
 
 # ---------------------------------------------------------------------------------------------
